@@ -146,7 +146,7 @@ def run(ctx):
 
     # ---- R5 back-off loop
     r = ctx.rule("R5", "connect failure: stop when closing, else count, policy delay, delayed retry kept in `connector`; "
-                       "success resets the count", 4, "B+E")
+                       "success resets the count", 9, "B+E")
     eb = conn.nested.get("ebConnect")
     cb = conn.nested.get("cbConnect")
     tc = conn.nested.get("tryConnect")
@@ -170,6 +170,31 @@ def run(ctx):
         node_assign_value(dly[0], "connector") is not None and norm(dly[0].calls()[0].args[1]) == unparse(dl[0].stmt.targets[0])
     r.check(ok, "%s#count-policy-delay" % eb.qname, "retry delay is not policy(consecutive failures), kept as the pending attempt",
             where(eb, eb.node), "no back-off between failed attempts / close() cannot cancel the wait")
+    ct = ctx.cfg(tc)
+    att = [n for n in ct.nodes if node_assign_value(n, "connector") is not None]
+    cnf = conn.nested.get("connect")
+    wrapped = bool(att) and isinstance(node_assign_value(att[0], "connector"), ast.Call) and call_name(node_assign_value(att[0], "connector")) in (
+        "maybeDeferred", "execute") and cnf is not None and prog.resolve_callable(tc, node_assign_value(att[0], "connector").args[0]) is cnf
+    r.check(wrapped, "%s#attempt-wrapped" % tc.qname, "the connection attempt is not started through maybeDeferred(connect): an exception raised "
+            "synchronously by the endpoint factory escapes instead of being counted as a failed attempt", where(tc, tc.node),
+            "endpoint factory raises on a retry (e.g. unresolvable host): the retry loop dies, requests are never re-sent")
+    hreg = [n for n in ct.nodes if any(call_name(c) in ("addCallback", "addErrback", "addBoth", "addCallbacks") for c in n.calls())]
+    r.check(bool(att) and bool(hreg) and all(ct.dominates([att[0].id], n.id) for n in hreg), "%s#stored-before-handlers" % tc.qname,
+            "the attempt is stored in `connector` after its handlers are attached: a synchronous failure lets ebConnect store the back-off "
+            "timer first, which the late assignment then overwrites with the dead attempt", where(tc, tc.node),
+            "close() during that back-off cancels a fired Deferred: the close Deferred never fires, the timer still reconnects")
+    cbd = conn.nested.get("cbDelayed")
+    for g in [x for x in (cb, eb, cbd) if x is not None]:
+        cg = ctx.cfg(g)
+        fgx = ctx.facts(g)
+        sets = [n.id for n in cg.nodes if node_assign_value(n, "connector") is not None or any(
+            prog.resolve_call(g, c) is tc for c in n.calls())]
+        closing = [n.id for n in cg.nodes if n.kind == "stmt" and isinstance(n.stmt, ast.Return) and known_truthy(fgx[n.id], "self._dDown")]
+        r.check(bool(sets) and not cg.normal_exits_from(cg.entry.id, avoid=sets + closing), "%s#no-stale-connector" % g.qname,
+                "a path through %s returns leaving `connector` pointing at the Deferred that has just fired (neither cleared, replaced by a "
+                "timer, nor a new attempt started)" % g.name, where(g, g.node),
+                "all queued requests cancelled during a failed attempt / back-off: the early return leaves a stale `connector`; makeRequest "
+                "only connects when `not self.connector`, so every later request is queued for ever")
     regs = registrations(eb, prog)
     rd = [g for g in regs if g["cb"] is not None and prog.resolve_callable(eb, g["cb"]) is not None]
     again = any(any(prog.resolve_call(prog.resolve_callable(eb, g["cb"]), c) is tc for c in calls_in(prog.resolve_callable(eb, g["cb"])))
@@ -264,6 +289,17 @@ MUTANTS = [
     {"id": "closing-guard-narrowed", "file": "brokerclient.py", "old": "            if self._dDown:\n                log.debug(\"%r: breaking connect loop",
      "new": "            if self._dDown and fail.check(Exception) and not fail.check(ValueError):\n                log.debug(\"%r: breaking connect loop", "expect": "C10.R5",
      "note": "seeded C20-2 (guard narrowed to one failure class)"},
+    {"id": "attempt-not-wrapped", "file": "brokerclient.py", "old": "            self.connector = d = maybeDeferred(connect)",
+     "new": "            self.connector = d = connect()", "expect": "C10.R5", "note": "seeded C10-3"},
+    {"id": "connector-stored-late", "file": "brokerclient.py",
+     "old": "            self.connector = d = maybeDeferred(connect)\n            d.addCallback(cbConnect)\n            d.addErrback(ebConnect)",
+     "new": "            d = maybeDeferred(connect)\n            d.addCallback(cbConnect)\n            d.addErrback(ebConnect)\n            self.connector = d", "expect": "C10.R5",
+     "note": "seeded C20-4"},
+    {"id": "backoff-expiry-skips-reconnect", "file": "brokerclient.py", "old": "        def cbDelayed(result):\n            tryConnect()",
+     "new": "        def cbDelayed(result):\n            if not self.requests:\n                return\n            tryConnect()", "expect": "C10.R5", "note": "seeded C06-4"},
+    {"id": "failed-attempt-no-retry-when-idle", "file": "brokerclient.py", "old": "            self._failures += 1\n            delay = self._retryPolicy(self._failures)",
+     "new": "            if not self.requests:\n                return None\n            self._failures += 1\n            delay = self._retryPolicy(self._failures)", "expect": "C10.R5",
+     "note": "seeded C10-5"},
     {"id": "close-keeps-pending", "file": "brokerclient.py", "old": "            if tReq.cancelled is None:\n                tReq.d.errback(reason)",
      "new": "            pass", "expect": "C10.R6"},
     {"id": "accept-after-close", "file": "brokerclient.py",
